@@ -69,9 +69,12 @@ func runWorkload(w workload) (msg string, maxInflight int32, evals int64) {
 		trees = append(trees, p.Src)
 		texts = append(texts, t)
 	}
-	// sequential baseline
+	// sequential baseline, computed on separately parsed copies so that the shared trees are
+	// touched for the first time by the concurrent goroutines (lazy per-node state would otherwise
+	// already be filled in)
 	base := seqBaseline{}
-	for _, tr := range trees {
+	for _, tx := range texts {
+		tr := obs.Parse([]byte(tx)).Src
 		var row [3]string
 		for j := 0; j < 3; j++ {
 			r := formula.NewRunner()
@@ -189,7 +192,7 @@ func runWorkload(w workload) (msg string, maxInflight int32, evals int64) {
 			d["salt"], d["saltn"] = sr.salt, sr.saltn
 			r := formula.NewRunner()
 			r.SetThis(d)
-			v, e := outcomeKey(obs.Eval(r, context.Background(), trees[sr.ti].Expression))
+			v, e := outcomeKey(obs.Eval(r, context.Background(), obs.Parse([]byte(texts[sr.ti])).Src.Expression))
 			if want := v + "|" + e; want != sr.got {
 				firstMsg = fmt.Sprintf("concurrent evaluation of %q with salt %q gave %s, sequentially it gives %s", texts[sr.ti], sr.salt, sr.got, want)
 				break
